@@ -141,10 +141,12 @@ type c10Injection struct {
 	Base   int // index into the captured corpus
 	Other  int // second corpus entry (splice)
 	Mut    mut
-	Type   int // 0 keep, 1 sync, 2 mpc, 3 none(0), 4 unknown(7), 5 255
-	Topic  int // 0 keep, 1 other live topic, 2 unknown 32 bytes, 3 empty, 4 short(1..7), 5 long(33), 6 nil
-	Source int // 0 keep (a participant), 1 another participant, 2 configured outsider, 3 unknown id
-	Victim int // index into participants, used when it differs from the source
+	Type   int  // 0 keep, 1 sync, 2 mpc, 3 none(0), 4 unknown(7), 5 255
+	Topic  int  // 0 keep, 1 other live topic, 2 unknown 32 bytes, 3 empty, 4 short(1..7), 5 long(33), 6 nil, 7 a 32-byte topic that is unique per flood position, 8 one fixed unknown 32-byte topic
+	Source int  // 0 keep (a participant), 1 another participant, 2 configured outsider, 3 unknown id
+	Victim int  // index into participants, used when it differs from the source
+	Idx    int  `json:",omitempty"` // position inside a flood (set when a flood injection is expanded)
+	Flood  bool `json:",omitempty"`
 }
 
 type c10StackCase struct {
@@ -278,12 +280,18 @@ func genC10Stack(silent bool) func(t *rapid.T) c10StackCase {
 				Victim: rapid.IntRange(0, 2).Draw(t, "victim"),
 			})
 		}
+		if silent && rapid.IntRange(0, 39).Draw(t, "flood") == 0 {
+			c.Inj[0].Mut = mut{Op: rapid.SampledFrom([]int{15, 16, 16}).Draw(t, "floodKind")}
+		}
 		c.Sched = genSchedule(t, 200)
 		return c
 	}
 }
 
+const c10TopicFlood = 10005 // SilentScheme lets a sender have 10000 topics in flight
+
 type c10StackInfo struct {
+	Floods      int
 	Injected    []string
 	MayAbort    bool
 	FirstOK     bool
@@ -344,6 +352,22 @@ func runC10Stack(c c10StackCase) *vh.Outcome {
 				}
 				continue
 			}
+			if in.Mut.Op == 15 || in.Mut.Op == 16 {
+				// floods that cross the documented limits of the silent-mode buffer: 15 = one sender opens more topics than a
+				// sender may have in flight (10000), 16 = one sender sends more messages on one waiting topic than it may (100)
+				count, topic := c10TopicFlood, 7
+				if in.Mut.Op == 16 {
+					count, topic = 110, 8
+				}
+				for i := 0; i < count; i++ {
+					x := in
+					x.Mut = mut{Op: 0}
+					x.Type, x.Topic, x.Idx, x.Flood = 2, topic, i, true
+					injections = append(injections, x)
+				}
+				info.Floods++
+				continue
+			}
 			if in.Mut.Op == 12 { // batch: every hostile constant in turn
 				for i := range hostileConstants {
 					x := in
@@ -388,6 +412,12 @@ func runC10Stack(c c10StackCase) *vh.Outcome {
 					f.Topic = append(f.Topic, 0x42)
 				case 6:
 					f.Topic = nil
+				case 7:
+					f.Topic = make([]byte, 32)
+					f.Topic[0], f.Topic[1], f.Topic[2], f.Topic[3] = 0xF1, byte(in.Idx>>16), byte(in.Idx>>8), byte(in.Idx)
+				case 8:
+					f.Topic = make([]byte, 32)
+					f.Topic[0], f.Topic[31] = 0xF2, byte(in.Base)
 				}
 				switch in.Source {
 				case 1:
@@ -411,13 +441,20 @@ func runC10Stack(c c10StackCase) *vh.Outcome {
 				// before the local party starts are buffered for the coming session by design
 				quiet := state == 2 || (state == 0 && !c.Silent)
 				harmless := quiet || !configured || !live || (!participant && f.MsgType == 2) || (f.MsgType != 1 && f.MsgType != 2)
+				if in.Flood && participant && c.Silent {
+					// a participant that exceeds its limits is shed by the buffer - its genuine session traffic included
+					harmless = false
+				}
 				if !harmless {
 					mayAbort = true
 				}
 				if live && (f.MsgType == 1 || f.MsgType == 2) && len(f.Data) >= 4 {
 					info.ReachedDeep++
 				}
-				info.Injected = append(info.Injected, fmt.Sprintf("from=%d to=%d type=%d topic=%x.. len=%d harmless=%v", f.From, f.To, f.MsgType, head(f.Topic, 4), len(f.Data), harmless))
+				if len(info.Injected) < 40 {
+					info.Injected = append(info.Injected, "")
+				}
+				info.Injected[len(info.Injected)-1] = fmt.Sprintf("from=%d to=%d type=%d topic=%x.. len=%d harmless=%v", f.From, f.To, f.MsgType, head(f.Topic, 4), len(f.Data), harmless)
 				d.DeliverFrame(f)
 				if d.HandlerPanic != "" || d.HandlerBlocked != "" {
 					return false
@@ -602,6 +639,27 @@ func TestC10Hostile(t *testing.T) {
 									}
 								}
 							}
+						}
+					}
+				}
+			}
+		}
+	})
+	// floods across the limits of the silent-mode buffer, by a participant, the configured outsider and an unknown node,
+	// before the session and while it runs; injections from other sources follow each flood
+	p.Enumerate(t, st, func(yield func(c10StackCase) bool) {
+		for _, be := range []string{"bls", "rec"} {
+			for _, op := range []int{15, 16} {
+				for _, src := range []int{0, 2, 3} {
+					for _, state := range []int{0, 1} {
+						idx++
+						if idx%shards != shard%shards {
+							continue
+						}
+						c := c10StackCase{Silent: true, Backend: be, Op: "keygen", State: state, K: 10,
+							Inj: []c10Injection{{Base: 5, Mut: mut{Op: op}, Source: src}, {Base: 9, Mut: mut{Op: 0}, Source: 1}, {Base: 11, Mut: mut{Op: 0}, Source: 3, Topic: 2}}}
+						if !yield(c) {
+							return
 						}
 					}
 				}
